@@ -223,7 +223,7 @@ def selftest(tier):
 
 def obligations(tier, seed):
     n = 2 if tier == 'quick' else 3
-    t = 280 if tier == 'quick' else 3000
+    t = 240 if tier == 'quick' else 3000
     obs = []
     qs = range(4)
     obs.append(dict(name='C12.ministring', fn='ministring', timeout=t, public_replay='public_outer',
